@@ -50,7 +50,7 @@ def applyHandler (kind : String) (attrib child : Attrs) (name : String) : Except
     if !attrib.has name && !child.has name then .ok child else do
       let a ← match attrib.get name with | some v => pyFloat v | none => pure 1.0
       let c ← match child.get name with | some v => pyFloat v | none => pure 1.0
-      pure (child.set name (F64.ntos (a * c)))
+      pure (child.set name (F64.ntos (clampOpacity a * clampOpacity c)))
   | "_inherit_clip_path" =>
     let own := Str.splitOnChar ',' ((child.get "clip-path").getD "").toList |>.map String.ofList
     let all := (own ++ [(attrib.get "clip-path").getD ""]).mergeSort (fun x y => decide (x ≤ y))
